@@ -300,7 +300,7 @@ pub trait Host {
     fn read_in(&mut self, i: usize, f: usize) -> u32;
     fn call(&mut self, node: usize) -> u32;
     fn call_multi(&mut self, node: usize, arg: u32) -> u32;
-    fn mk_call(&mut self, node: usize) -> (u32, Vec<Self::Ts>);
+    fn mk_call(&mut self, node: usize) -> (u32, Vec<Self::Ts>, Vec<Self::It>);
     fn new_ts(&mut self, ident: u32, t0: u32, t1: u32) -> Self::Ts;
     fn read_ts(&mut self, h: &Self::Ts, f: usize) -> u32;
     fn call_on_ts(&mut self, h: &Self::Ts) -> u32;
@@ -320,6 +320,7 @@ pub struct BodyOut<H: Host> {
     pub ret: u32,
     pub regs: [u32; NREG],
     pub ts: Vec<H::Ts>,
+    pub it: Vec<H::It>,
 }
 
 pub fn arith(o: AOp, a: u32, b: u32, m: u32) -> u32 {
@@ -397,9 +398,10 @@ pub fn run_body<H: Host>(
                 }
             }
             Op::MkCall { d, n } => {
-                let (v, hs) = h.mk_call(*n as usize);
+                let (v, hs, is) = h.mk_call(*n as usize);
                 r[*d as usize] = v % m;
                 ts.extend(hs);
+                it.extend(is);
             }
             Op::CallOnTs { d, h: hh } => {
                 if !ts.is_empty() {
@@ -444,5 +446,5 @@ pub fn run_body<H: Host>(
             }
         }
     }
-    BodyOut { ret: ret.unwrap_or(r[0]), regs: r, ts }
+    BodyOut { ret: ret.unwrap_or(r[0]), regs: r, ts, it }
 }
